@@ -38,7 +38,7 @@ pub fn configs(prop: &str) -> Vec<Config> {
             c("byzantine", 6_000, 200_000),
             c("boundary", 6_000, 200_000),
             c("corpus", 104, 1040),
-            c("threads", 600, 20_000),
+            c("threads", 600, 6_000),
         ],
         "C04" => vec![
             e("truncate_all"),
